@@ -30,8 +30,18 @@ pub type V9FieldPair = (V9Field, FieldValue);
 
 impl V9Parser {
     pub fn parse(&mut self, packet: &[u8]) -> Result<ParsedNetflow, NetflowParseError> {
+        self.parse_packet(packet)
+            .map(|(remaining, packet)| ParsedNetflow::new(remaining, packet))
+    }
+
+    /// Like `parse`, but hands back the unparsed tail as a slice of `packet`
+    /// instead of copying it.
+    pub(crate) fn parse_packet<'a>(
+        &mut self,
+        packet: &'a [u8],
+    ) -> Result<(&'a [u8], NetflowPacket), NetflowParseError> {
         V9::parse(packet, self)
-            .map(|(remaining, v9)| ParsedNetflow::new(remaining, NetflowPacket::V9(v9)))
+            .map(|(remaining, v9)| (remaining, NetflowPacket::V9(v9)))
             .map_err(|e| {
                 NetflowParseError::Partial(PartialParse {
                     version: 9,
